@@ -10,15 +10,17 @@ namespace Ws
 
 /-- C12 (main theorem): any list of text/binary messages (with ping/pong messages in between) written by one endpoint is
     delivered to the other endpoint's message handler exactly once, in order, with the same type and payload and without
-    error — for both roles (`gs.isClient`), every 4-byte mask key per frame, every frame-size limit `gs.maxFrame > 0`
+    error — for both roles (`gs.isClient`), every 4-byte mask key per frame (the bytes are those of `appWrites`: the sequence of `appWrite` calls the
+    model driver runs, proved equal to `wireOf`), every frame-size limit `gs.maxFrame > 0`
     (any fragmentation), with or without per-message compression for every codec that satisfies the round-trip law
     (`MsgOK.codec`), every message limit that admits the messages, and every segmentation of the byte stream into reads.
     `MsgOK`: text payloads are valid UTF-8, control payloads are at most 125 bytes, sizes below 2^63 and within the limit. -/
 theorem c12_roundtrip (gs gr : Cfg) (es er : Env) (hkeys : ∀ i, (es.keyAt i).length = 4) (hmf : gs.maxFrame > 0)
     (hcomp : gs.writeCompression = true → gr.enableCompression = true) (hrl : gr.readLimit = 0)
     (ms : List (Nat × Bytes)) (hok : ∀ m ∈ ms, MsgOK gs gr es er m.1 m.2)
-    (segs : List Bytes) (hsegs : segs.flatten = wireOf gs es 0 ms) :
+    (segs : List Bytes) (hsegs : segs.flatten = appWrites gs es {} ms) :
     delivs (feed gr er {} segs []).acts = dataOf ms ∧ (feed gr er {} segs []).err = none := by
+  rw [appWrites_eq_wireOf gs es ms {} rfl] at hsegs
   have hw : Within gr {} := by intro _; simp [msgLen, K.len]
   have hnf : nextFrame gr {} = .need := by simp [nextFrame, decodeHdr]
   have hobs := feed_flatten gr er hrl segs {} [] hw hnf
@@ -32,6 +34,20 @@ theorem c12_roundtrip (gs gr : Cfg) (es er : Env) (hkeys : ∀ i, (es.keyAt i).l
   have he : (feed gr er {} segs []).err = none := by
     have := congrArg (fun o => o.2.1) hobs; simpa [PR.obs] using this
   exact ⟨by rw [ha, hd], he⟩
+
+/-- C12 (content restriction made explicit): a text message whose (inflated) payload is not valid UTF-8 is NOT delivered:
+    the receiver answers with a close frame (1002 "invalid UTF-8 bytes") and closes the conn. `c12_roundtrip` therefore
+    speaks about valid UTF-8 text and arbitrary binary payloads (`MsgOK.text`), as RFC 6455 §5.6/§8.1 demands. -/
+theorem c12_invalid_text_not_delivered (g : Cfg) (e : Env) (k1 : K) (out : Bytes) (hr : inflOf g e k1 = .ok out)
+    (hk : k1.connClosed = false) (h1 : k1.msgType = 1) (hu : utf8Valid out = false) :
+    ∃ a k', finishMsg g e k1 = .next k' (a ++ [.closeConn]) ∧ k'.connClosed = true ∧ NoDeliver a :=
+  finish_badutf8 g e k1 out hr hk h1 hu
+
+/-- C12 (truncWriter and flateReaderTail are inverse): what the receiver hands to the inflater is the sender's raw deflate
+    stream followed by a final empty stored block, for every chunking of a stream that ends with the sync-flush marker
+    (`flateReaderTail` is the constant regenerated from the code) -/
+theorem c12_trunc_tail (cs : List Bytes) (body : Bytes) (h : cs.flatten = body ++ [0, 0, 255, 255]) :
+    (twWrites [] cs).1 ++ Gen.flateReaderTail = cs.flatten ++ [1, 0, 0, 255, 255] := trunc_tail cs body h
 
 /-- C12 (masking): the strided `maskXOR` (64-byte blocks of 8-byte words, 8-byte words, byte tail) is the bytewise
     `b[i] ^= key[i % 4]`, for every length and key … -/
@@ -76,6 +92,16 @@ def cliCfg : Cfg := { enableCompression := false, writeCompression := false, msg
 def srvCfg' : Cfg := { cliCfg with isClient := false }
 def keyEnv : Env := { keyAt := fun i => [UInt8.ofNat i, 7, 9, 11], deflate := id, inflate := fun _ => ⟨[], []⟩ }
 def demoMsgs : List (Nat × Bytes) := [(1, []), (9, [1]), (2, [1, 2, 3, 4, 5])]
+
+/-- non-vacuity of the compression branch: a codec that satisfies `MsgOK.codec` (stored, one read, EOF with the data),
+    both endpoints compressing, limit 16 -/
+def zCli : Cfg := { enableCompression := true, writeCompression := true, msgLimit := 16, readLimit := 0, maxFrame := 3, isClient := true }
+def zSrv : Cfg := { zCli with isClient := false }
+def zEnv : Env := { keyAt := fun i => [UInt8.ofNat i, 7, 9, 11], deflate := fun x => 42 :: x,
+                    inflate := fun m => ⟨m.drop 1, [⟨64, m.length - 1, 1⟩]⟩ }
+example : readAll zSrv.msgLimit ((zEnv.deflate [1, 2, 3]).length * 2) (zEnv.inflate (zEnv.deflate [1, 2, 3])) = .ok [1, 2, 3] := by decide
+example : delivs (feed zSrv zEnv {} ((appWrites zCli zEnv {} [(2, [1, 2, 3]), (1, [0x61])]).map fun b => [b]) []).acts = [(2, [1, 2, 3]), (1, [0x61])] := by
+  decide
 
 example : (wireOf cliCfg keyEnv 0 demoMsgs).length = 6 + 7 + 3 * 6 + 2 + 2 + 1 := by decide
 example : delivs (feed srvCfg' keyEnv {} ((wireOf cliCfg keyEnv 0 demoMsgs).map fun b => [b]) []).acts = [(1, []), (2, [1, 2, 3, 4, 5])] := by
